@@ -57,6 +57,11 @@ def _translate_method(cls: ast.ClassDef, name: str) -> str:
     for st in fn.body:
         if isinstance(st, ast.Expr) and isinstance(st.value, ast.Constant):
             continue  # docstring
+        if isinstance(st, ast.Assert):
+            continue  # the value returned when the assertion holds (the whole body incl. assertions: pylite_c05)
+        if isinstance(st, ast.AnnAssign) and isinstance(st.target, ast.Name) and st.value is not None:
+            env[st.target.id] = _expr(st.value, env)
+            continue
         if isinstance(st, ast.Assign) and len(st.targets) == 1 and isinstance(st.targets[0], ast.Name):
             env[st.targets[0].id] = _expr(st.value, env)
             continue
